@@ -159,7 +159,8 @@ class GMRFPiecewiseCoalescentBlockUpdatingOperator(MCMCOperator):
 
     def _step(self) -> Tensor:
         coalescent = self.coalescent.distribution()
-        gamma = self.gmrf.field.tensor
+        # a copy: the tensor of a view shares memory with the parameter it views
+        gamma = self.gmrf.field.tensor.clone()
         sufficient_statistics, coalescent_counts = coalescent.sufficient_statistics(
             self.coalescent.tree_model.node_heights
         )
